@@ -137,7 +137,12 @@ def signalling (d : D) (id : Id) (states : List RState) : List Id :=
 
 def signalOK (d : D) (ids : List Id) : Option D :=
   if ids.any (fun i => sigOf d i ≥ 1) then none
-  else some (ids.foldl (fun d i => setSig d i (sigOf d i + 1)) d)
+  else some (ids.foldl (fun d i => setSig d i 1) d)
+
+/-- an update is also admitted when the only pending signal of the request is an update signal (2) -/
+def signalUpd (d : D) (ids : List Id) : Option D :=
+  if ids.any (fun i => sigOf d i == 1) then none
+  else some (ids.foldl (fun d i => setSig d i 2) d)
 
 -- ------------------------------------------------------------------ ops
 def apiResString : ApiRes → String
@@ -332,7 +337,7 @@ def execOp (d : D) (t : Toks) : D × String :=
   | ["upd", _, _, plan] =>
     match peerArg d t 1, idArg d t 2 with
     | some p, some id =>
-      match signalOK d (signalling d id [.running, .queued]) with
+      match signalUpd d (signalling d id [.running, .queued]) with
       | none => (d, "refused")
       | some d1 => mgrOp d1 (.recv p (.update id (parseUP plan)))
     | _, _ => (d, "bad")
